@@ -223,7 +223,8 @@ func vh_C01_reduce_Q() {
 	tag := "T" + symxString("tag", 0, 1, "ab")
 	rattrs := []annotations.Attribute{{Name: annotations.GleeceAnnotationMethod, Value: string(verb)}, {Name: annotations.GleeceAnnotationRoute, Value: route}}
 	if hidden {
-		rattrs = append(rattrs, annotations.Attribute{Name: annotations.GleeceAnnotationHidden})
+		// @Hidden hides the route whether or not the annotation carries a value
+		rattrs = append(rattrs, annotations.Attribute{Name: annotations.GleeceAnnotationHidden, Value: []string{"", "internal"}[symxChoice("hidden.value", 2)]})
 	}
 	if deprecated {
 		rattrs = append(rattrs, annotations.Attribute{Name: annotations.GleeceAnnotationDeprecated, Description: "old"})
